@@ -1,4 +1,4 @@
-//go:build verif
+//go:build verif && vi_accumulation_c22
 
 package accumulation
 
